@@ -5,6 +5,7 @@ C17 — pulse addressing: sources and loads act on exactly the pulse the user na
 the geometry table prints pulse `i` (0-based index) with number `i + 1` in the block of its owner,
 blocks in processing order, which is increasing tag order (`sortByTag`).
 -/
+import Pmn.Model.Cmd
 import Pmn.Props.C12
 
 namespace Pmn.Props.C17
@@ -235,5 +236,48 @@ theorem C17_order (tags : List Nat) :
 /-! non-vacuity -/
 example : (assignTags [some 7, none, some 3, none]).toOption = some [7, 8, 3, 9] := by decide
 example : (sortByTag [7, 8, 3, 9]).map (·.2) = [2, 0, 1, 3] := by decide
+
+
+/-! ### the fields of `--attach-load` / `--excitation-pulse` -/
+
+section Fields
+open Pmn.Cmd
+
+
+/-- what `register_load` is called with for an attachment -/
+def attArgs : Att → Option Int × Option Int
+  | .pulse k => (some ((k : Int) - 1), none)
+  | .rel k t => (some ((k : Int) - 1), some (t : Int))
+  | .allObj t => (none, some (t : Int))
+  | .all => (none, none)
+
+/-- **the attachments the writer emits are read as written**: load `i` of `n`, pulse `k` (1-based) or all, optional tag -/
+theorem C17_attach_parse (n i : Nat) (a : Att) (h1 : 1 ≤ i) (hn : i ≤ n) :
+    parseAttach n (showAttach i a) = .ok (i - 1, attArgs a) := by
+  have hlt : ¬ ((i : Int) < 1 ∨ (n : Int) < (i : Int)) := by omega
+  have hnat : ((i : Int) - 1).toNat = i - 1 := by omega
+  cases a <;> simp [showAttach, parseAttach, Fld.int?, attArgs, hnat] <;> omega
+
+/-- **the keyword `all` stands for "every pulse" and nothing else**: as the load number or as the tag it is refused -/
+theorem C17_attach_keyword (n : Nat) (p t : Fld) :
+    (∃ e, parseAttach n [.all, p] = .error e) ∧ (∃ e, parseAttach n [.all, p, t] = .error e) ∧
+    (∀ l, ∃ e, parseAttach n [l, p, .all] = .error e) := by
+  refine ⟨⟨_, rfl⟩, ⟨_, rfl⟩, ?_⟩
+  intro l
+  cases l with
+  | int lv =>
+    cases p <;> simp [parseAttach, Fld.int?]
+  | all => exact ⟨_, rfl⟩
+  | junk => exact ⟨_, rfl⟩
+
+/-- the rule of the seeded change C20-f let the keyword through as a load number -/
+theorem C17_attach_keyword_defect_witness :
+    parseAttachLax [.all, .int 3] = true ∧ ∃ e, parseAttach 1 [.all, .int 3] = .error e := ⟨rfl, _, rfl⟩
+
+theorem C17_excitation_parse (p t : Int) :
+    parseExcitation [.int p] = .ok (p - 1, none) ∧ parseExcitation [.int p, .int t] = .ok (p - 1, some t) := ⟨rfl, rfl⟩
+
+
+end Fields
 
 end Pmn.Props.C17
